@@ -83,6 +83,9 @@ func validHeaders(thorough bool) []Header {
 					// every parameter spelling in lower case, two mixed; otherwise the full product
 					continue
 				}
+				if !thorough && si != 0 && (b == "application/octet-stream" || b == "application/jsonx" || b == "image/png") {
+					continue // quick: parameter spellings only for the three types that lists name or reach by text/*
+				}
 				out = append(out, Header{Lines: []string{spell(b, cv) + s}, Name: nameFor[cv], Kind: "valid", MTs: []string{b}})
 			}
 		}
@@ -211,10 +214,28 @@ func main() {
 	if r.Replay != "" {
 		var rc struct {
 			Case
-			Multi Multi  `json:"multi"`
-			Steps []Step `json:"steps"`
+			Multi    Multi  `json:"multi"`
+			Steps    []Step `json:"steps"`
+			Accessor string `json:"accessor"`
 		}
 		r.LoadReplay(&rc)
+		if rc.Accessor != "" {
+			a := AccessorCase{Accessor: rc.Accessor, Header: rc.Header, Method: rc.Method, Body: rc.Body}
+			e := newEnv(Config{Consumes: []string{"application/json"}, Where: "op", Default: "application/json", Reg: "all", BodyParam: true})
+			fs := checkAccessor(e, a)
+			fmt.Printf("replay accessor %+v\n", a)
+			for _, f := range fs {
+				fmt.Printf("  class=%q %s\n", f.class, f.what)
+				r.Fail(f.class, f.what, a)
+			}
+			if len(fs) == 0 {
+				fmt.Println("  oracle satisfied")
+			}
+			r.Eval(2)
+			r.Nontrivial(1)
+			r.Sample(a)
+			r.Finish("replay of one accessor call", false)
+		}
 		if len(rc.Steps) > 0 {
 			sc := SeqCase{Multi: rc.Multi, Steps: rc.Steps}
 			w := newWorld(sc.Multi)
@@ -334,6 +355,9 @@ func main() {
 	}
 	// sequences on shared instances first (the smaller phase), then the single-request product
 	seqPhase(r, thorough, stop)
+	// exported surface: API configuration variants, serving variants, accessors
+	surfacePhase(r, stop)
+	accessorPhase(r, headers, modes)
 
 	var done atomic.Int64
 	enum.Parallel(len(cfgs), stop, func(ci int) {
@@ -403,5 +427,5 @@ func main() {
 		"the order of route.Consumes (random in the pinned tree: the analyzer ranges over a map) is set by the harness to ascending and descending (sequence phase: ascending)",
 		"sequence phase: a fresh instance = new untyped API value, Context, router, handler chain and consumers over the same analysed description; state kept outside these objects (package level) is not reset between sequences",
 	)
-	r.Finish("every configuration (subset of the consumes universe up to the size bound x API default x registered consumers x description shape) x list order x every Content-Type header of the alphabet x every body mode x every method, plus per configuration the body-content sweep (first byte x length x chunked/unknown-length framing x reduced header set x every method), each executed on both entry points of the real middleware (2 evaluations per case) and compared with the reference model; non-trivial = the request carries a body under at least one reading, i.e. the HasBody branch of the gate is entered (distinct by construction: the enumerator never repeats a (configuration, order, header, body mode, method) tuple). Sequence phase: every description with two operations (unordered pair of consumes lists x operationId mode none/same/unique x layout x API default) x (a) every ordered pair (thorough: also every ordered triple over the smaller alphabet) of steps (operation x entry point x header x body mode), each sequence served by ONE fresh instance, and (b) for every first step of the wide alphabet one instance that serves it followed by every step of the wide alphabet; every step is one evaluation, judged by the reference model with the configuration of the operation it addresses and required to equal the result of the same step alone on a fresh instance; non-trivial sequence = at least two of its steps carry a body", !cut.Load())
+	r.Finish("every configuration (subset of the consumes universe up to the size bound x API default x registered consumers x description shape) x list order x every Content-Type header of the alphabet x every body mode x every method, plus per configuration the body-content sweep (first byte x length x chunked/unknown-length framing x reduced header set x every method), each executed on both entry points of the real middleware (2 evaluations per case) and compared with the reference model; non-trivial = the request carries a body under at least one reading, i.e. the HasBody branch of the gate is entered (distinct by construction: the enumerator never repeats a (configuration, order, header, body mode, method) tuple). Surface phase: every API-configuration variant (NewAPI as built, WithoutJSONDefaults, WithJSONDefaults, fields assigned by hand, upper-case RegisterConsumer) and every serving variant (APIHandler, APIHandlerSwaggerUI, APIHandlerRapiDoc, ServeWithBuilder, direct BindAndValidate, NewRoutableContext with a generated-style RoutableAPI with and without explicit DefaultRouter) x consumes lists of 0-2 entries x representative headers x body modes x methods, judged by the same model with the default media type the variant configures; runtime.ContentType / Context.ContentType / runtime.HasBody called directly on the whole header and body-mode alphabets. Sequence phase: every description with two operations (unordered pair of consumes lists x operationId mode none/same/unique x layout x API default) x (a) every ordered pair (thorough: also every ordered triple over the smaller alphabet) of steps (operation x entry point x header x body mode), each sequence served by ONE fresh instance, and (b) for every first step of the wide alphabet one instance that serves it followed by every step of the wide alphabet; every step is one evaluation, judged by the reference model with the configuration of the operation it addresses and required to equal the result of the same step alone on a fresh instance; non-trivial sequence = at least two of its steps carry a body", !cut.Load())
 }
